@@ -324,6 +324,7 @@ class RefJsonParser {
 // ---------------------------------------------------------------- writer
 struct JsonSpelling {
   bool nan = false, inf = false;  // spell non-finite numbers as NaN / Infinity (dialect), else null
+  bool rawControl = false;        // write control characters raw instead of \u00XX (for builds without unicode decoding)
   Rng* rng = nullptr;  // null: canonical compact spelling
   bool whitespace = false;
   bool escapes = false;   // \uXXXX for printable characters, \/ , mixed hex case
@@ -398,7 +399,10 @@ class RefJsonWriter {
           continue;
       }
       if (c < 0x20) {
-        hex4(c);
+        if (sp_.rawControl && c != 0)
+          out_ += char(c);
+        else
+          hex4(c);
         j++;
         continue;
       }
